@@ -14,4 +14,18 @@ CLAIMS = {
     },
 }
 
+CLAIMS["C12"] = {
+    "technique": "path rules (must/may dataflow, cycle analysis) over the interprocedural MIR event graph",
+    "text": "Decides, for every path of the connection task and of the poll-style Request/StreamWriter APIs (hence every fault position "
+            "and chunking): each transport read/write count is compared with 0 before use and the zero edge returns ConnectionReset "
+            "(preamble) / UnexpectedEof (in request) / WriteZero with no further I/O (R12.1, R12.4); no io::Result or parser Result is "
+            "dropped uninspected and only the three enumerated errors are tolerated (R12.2); no READ/WRITE/PARSE/HANDLER event follows an "
+            "observed, un-tolerated error (R12.3: nothing is written after a failed write, no handler for a failed preamble); every cycle "
+            "contains a suspension, transport I/O, the handler or an iterator step and Pending is propagated (R12.5: no spinning). "
+            "Does NOT decide absence of panics in the glue (arithmetic, slicing, expect).",
+    "note": "Event semantics of futures-io traits as documented; handler assumed to propagate I/O errors (as the statement says); "
+            "panic-freedom not decided.",
+    "design_ref": "DESIGN.md §4 C12",
+}
+
 PENDING_REASON = "rules for this property are not built yet (build in progress; DESIGN.md §7 gives the order)"
